@@ -177,9 +177,65 @@ func (fv *FV) execStmt(st *State, s ast.Stmt, ctl *Ctl, k Kont) {
 		fv.note("go statement dropped: " + exprStr(fv, x.Call.Fun))
 		k(st)
 	case *ast.SendStmt:
-		fv.evalExpr(st, x.Value)
-		fv.note("channel send dropped: " + exprStr(fv, x.Chan))
+		val := fv.evalExpr(st, x.Value)
+		name := exprStr(fv, x.Chan)
+		if fp := fv.fc.FnParams["send_"+name]; fp != nil {
+			// a send on this channel has a ghost effect given by the `fnparam send_<chan>(v)` contract
+			ghostPre := map[string]Term{}
+			for g, t := range st.ghost {
+				ghostPre[g] = t
+			}
+			for _, m := range fp.Modifies {
+				if g, ok := fv.reg.ghosts[m]; ok {
+					st.ghost[m] = fv.fresh(m, g.Sort)
+				}
+			}
+			for _, c := range fp.Ensures {
+				env := fv.specEnv(st, x.Pos(), nil, false)
+				base := env.lookup
+				env.lookup = func(n string, old bool) (Term, bool) {
+					if len(fp.Params) > 0 && n == fp.Params[0] {
+						return val, true
+					}
+					if _, ok := fv.reg.ghosts[n]; ok && old {
+						return ghostPre[n], true
+					}
+					return base(n, old)
+				}
+				t, err := env.EvalBool(c.X)
+				if err != nil {
+					fv.abort(x.Pos(), "send contract %q: %v", c.Text, err)
+				}
+				st.assume(t)
+			}
+		} else {
+			fv.note("channel send dropped: " + name)
+		}
 		k(st)
+	case *ast.SelectStmt:
+		// every communication clause may be the one taken (no assumption on readiness)
+		fv.note("select: each case is explored as possible; channel operations themselves are not modelled")
+		inner := ctl.with("", k, nil)
+		for _, c := range x.Body.List {
+			cc := c.(*ast.CommClause)
+			br := st.clone()
+			fv.countPath(cc.Pos())
+			if cc.Comm != nil {
+				switch cm := cc.Comm.(type) {
+				case *ast.AssignStmt:
+					for _, l := range cm.Lhs {
+						if id, ok := l.(*ast.Ident); ok && id.Name != "_" {
+							if obj := fv.info.ObjectOf(id); obj != nil {
+								br.vars[obj] = fv.fresh(id.Name, fv.ss.Of(obj.Type()))
+							}
+						}
+					}
+				case *ast.SendStmt:
+					fv.execStmt(br, cm, inner, func(*State) {})
+				}
+			}
+			fv.execBlock(br, cc.Body, inner, k)
+		}
 	default:
 		fv.abort(s.Pos(), "unsupported statement %T", s)
 	}
